@@ -63,6 +63,7 @@ class Recorder:
         self.dry = False
         self.treemax = 0
         self.depth = 0
+        self.tree_all = False
 
     # ---- patching
     def __enter__(self):
@@ -217,9 +218,23 @@ class Recorder:
                     self.treemax = max(self.treemax, U.shared_size(tn.tensor_map[a], tn.tensor_map[b]))
             return
         rec = {"ev": "handover", "what": "tree", "side": "", "blocks": [], "bonds": [], "wbonds": []}
+        if self.tree_all and tid in tn.tensor_map:
+            # compress_late=False with compress_span=True: no live pair is exempt, so after the step every bond of the
+            # new tensor has been dealt with (compressed if larger than the cap)
+            geo = self.lat.geo
+            t = tn.tensor_map[tid]
+            nb = set()
+            for ix in t.inds:
+                nb |= set(tn.ind_map[ix]) - {tid}
+            rec["blocks"] = [sorted(geo.sites_of_tags(t.tags))]
+            for x in sorted(nb):
+                tx = tn.tensor_map[x]
+                rec["blocks"].append(sorted(geo.sites_of_tags(tx.tags)))
+                rec["bonds"].append([1, len(rec["blocks"]), U.shared_size(t, tx)])
         dang, v = U.tn_value(tn)
         if dang == 0:
             U.put_value(rec, "value", v)
+        if dang == 0 or rec["bonds"]:
             self.emit(rec)
 
 
@@ -687,6 +702,7 @@ def compressed_jobs(lat, rng, n):
                 kw = {}
                 if cfg["gauges"]:
                     kw["gauges"] = True
+                rec.tree_all = cfg["compress_late"] is False and cfg["compress_span"] is True and isinstance(cfg["optimize"], tuple)
                 return lat.tn.contract_compressed(cfg["optimize"], max_bond=cap, cutoff=0.0, compress_late=cfg["compress_late"],
                                                   compress_mode=cfg["compress_mode"], tree_gauge_distance=cfg["tree_gauge_distance"],
                                                   compress_span=cfg["compress_span"], strip_exponent=cfg["strip_exponent"],
@@ -831,6 +847,7 @@ def run_envs(lat, scheme, cfg, cap, call, what, model=None):
                  "final": bool(absorbed == n_lines - 1)}
         r = env_record(lat, base, cap, env, claim, k, absorbed, bool(cfg.get("dense", False)))
         r["dangling_pos"] = bool(r["dangling"] > 0)
+        r["dense_eq"] = bool(cfg.get("dense", False) and cfg.get("equalize_norms", False))
         lat.recs.append(r)
 
 
@@ -877,7 +894,7 @@ def make_lattices(rng, tier):
                 return (hb, vb, phys) if physch else (hb, vb)
 
     q = tier == "quick"
-    k = 1 if q else 4
+    k = 1 if q else 6
     for rep in range(k):
         hb, vb = grid(3, 3, [2, 2, 2, 1] if rep else [2])
         out.append(("2d", dict(Lx=3, Ly=3, hb=hb, vb=vb, cplx=bool(rep % 2)), dict(boundary=30 if q else 60, around=4, env=7 if q else 14, comp=3)))
@@ -1127,6 +1144,7 @@ def replay_tree_case(lat, rng, c):
     cmode = rng.choice(["basic", "auto"])
 
     def call(rec, cap):
+        rec.tree_all = cfg["compress_late"] is False and cfg["compress_span"] == 1
         return lat.tn.contract_compressed(path, max_bond=cap, cutoff=0.0, compress_late=cfg["compress_late"], compress_span=cfg["compress_span"],
                                           compress_mode=cmode, callback_pre_compress=rec.cb_pre, callback_post_compress=rec.cb_post, callback=rec.cb_step)
     # at the model's cap (1) the set of compressions is determined: compare count and largest exact bond compressed
